@@ -6,7 +6,6 @@ import (
 	"testing"
 
 	"github.com/ChrisTrenkamp/xsel"
-	"github.com/ChrisTrenkamp/xsel/store"
 	"pgregory.net/rapid"
 
 	"verif/xast"
@@ -25,6 +24,7 @@ type c03Case struct {
 	C      *xast.Expr        `json:"c"`
 	Abbrev bool              `json:"abbrev,omitempty"` // render with abbreviated steps
 	W      []string          `json:"w,omitempty"`      // $w: a node-set variable, in document order
+	View   int               `json:"view,omitempty"`   // 1, 2: the queries start from a user-written Cursor (fresh objects per call / uncomparable value type)
 }
 
 var c03Union = reg("C03", "c03-union", checkC03)
@@ -97,14 +97,14 @@ func genOverlap(g *xast.G, abs bool) *xast.Expr {
 // Context.Result(), each once, in document order (by Pos()).
 func c03Up(ctx xsel.Context, _ ...xsel.Result) (xsel.Result, error) {
 	ns, _ := ctx.Result().(xsel.NodeSet)
-	seen := map[store.Cursor]bool{}
+	seen := map[int]bool{} // by position: a user-written Cursor need not be comparable
 	out := xsel.NodeSet{}
 	for _, n := range ns {
 		if n.Pos() == 0 {
 			continue // the root has no parent
 		}
-		if par := n.Parent(); par != nil && !seen[par] {
-			seen[par] = true
+		if par := n.Parent(); par != nil && !seen[par.Pos()] {
+			seen[par.Pos()] = true
 			out = append(out, par)
 		}
 	}
@@ -126,7 +126,7 @@ func TestC03(t *testing.T) {
 		ctx := p.doc.All[rapid.IntRange(0, len(p.doc.All)-1).Draw(t, "ctx")]
 		abs := ctx == p.doc.Root
 		g := &xast.G{T: t, Env: xast.GenEnv{ElemNames: queryable(elems), AttrNames: queryable(attrs), PITargets: targets, Prefixes: prefixesOf(ns), NoAbs: !abs}}
-		c := &c03Case{Events: ev, Ctx: ctx.Ref(), NS: ns, A: genOverlap(g, abs), B: genOverlap(g, abs), C: genOverlap(g, abs), Abbrev: rapid.Bool().Draw(t, "abbrev")}
+		c := &c03Case{Events: ev, Ctx: ctx.Ref(), NS: ns, A: genOverlap(g, abs), B: genOverlap(g, abs), C: genOverlap(g, abs), Abbrev: rapid.Bool().Draw(t, "abbrev"), View: []int{0, 0, 0, 1, 2}[rapid.IntRange(0, 4).Draw(t, "view")]}
 		c03Union.run(t, c)
 	})
 	// operands that are guided walks: steps taken from node-sets that mix
@@ -146,7 +146,7 @@ func TestC03(t *testing.T) {
 			ctx = p.doc.All[rapid.IntRange(0, len(p.doc.All)-1).Draw(t, "ctx")]
 		}
 		abs := ctx == p.doc.Root
-		c := &c03Case{Events: ev, Ctx: ctx.Ref(), NS: ns, Abbrev: rapid.Bool().Draw(t, "abbrev"), W: mixedNodeVar(t, p.doc, "w").Nodes}
+		c := &c03Case{Events: ev, Ctx: ctx.Ref(), NS: ns, Abbrev: rapid.Bool().Draw(t, "abbrev"), W: mixedNodeVar(t, p.doc, "w").Nodes, View: []int{0, 0, 0, 1, 2}[rapid.IntRange(0, 4).Draw(t, "view")]}
 		env := c.env(p)
 		g := &xast.G{T: t, Env: xast.GenEnv{ElemNames: queryable(elems), AttrNames: queryable(attrs), PITargets: targets, Prefixes: prefixesOf(ns), NoAbs: !abs, NodeVars: []string{"w"}}}
 		c.A, c.B, c.C = genWalk(t, g, env, ctx, abs, 3, 1), genWalk(t, g, env, ctx, abs, 3, 1), genWalk(t, g, env, ctx, abs, 2, 0)
@@ -205,10 +205,15 @@ func checkC03(c *c03Case) error {
 		if err != nil {
 			return nil, text, fmt.Errorf("BuildExpr(%q): %v", text, firstLine(err.Error()))
 		}
-		r, err := safeExec(p.loc.ToCur[ctx], g, set...)
+		start := p.loc.ToCur[ctx]
+		if c.View > 0 {
+			start = viewOf(start, c.View)
+		}
+		r, err := safeExec(start, g, set...)
 		if err != nil {
 			return nil, text, fmt.Errorf("Exec(%q): %v", text, err)
 		}
+		r = unviewResult(r)
 		ns, ok := r.(xsel.NodeSet)
 		if !ok {
 			return nil, text, fmt.Errorf("Exec(%q): not a node-set", text)
